@@ -27,7 +27,7 @@ REAL, STUBBED = C.REAL, C.STUBBED
 
 
 def budget(tier):
-    return dict(nights=140, wall_s=150) if tier == "quick" else dict(nights=4000, wall_s=1500)
+    return dict(nights=300, wall_s=240) if tier == "quick" else dict(nights=4000, wall_s=1500)
 
 
 WORLD = dict(offices=["G", "G", "S", "H"], unit_types=["precinct", "precinct", "county"], n_states=(1, 3), n_counties=(2, 7),
